@@ -10,7 +10,7 @@ def touched : Op → List Nat
   | .remove t _ | .removeIdx t _ | .reset t | .compress t | .reserve t _ _ | .clear t => [t.root]
   | .copy t _ | .assignObj t _ | .assignArr t _ | .appendCopy t _ | .appendObj t _ | .appendArr t _
   | .mergeCopy t _ => [t.root]
-  | .move t s | .appendMove t s | .insertMove t _ s | .mergeMove t s => [t.root, s.root]
+  | .move t s | .appendMove t s | .insertMove t _ s | .mergeMove t s | .container t s _ _ _ => [t.root, s.root]
   | .groupBy dest _ _ => [dest]
 
 theorem envGet_envSet_other (env : Env) (r q : Nat) (d : Doc) (h : q ≠ r) :
@@ -63,6 +63,17 @@ theorem step_frame (fmtReal : Nat → List Nat) (op : Op) (env : Env) (q : Nat) 
   | mergeMove t s =>
     simp [touched] at h; simp only [step]
     split <;> first | rfl | (rw [envGet_onTarget_other _ _ _ _ h.1, envGet_clearSource_other _ _ _ h.2])
+  | container t s kind add mv =>
+    simp [touched] at h
+    simp only [step]
+    split
+    · split
+      · rw [envGet_envSet_other _ _ _ _ h.1]
+        cases mv
+        · simp only [Bool.false_eq_true, if_false]; exact envGet_onTarget_other _ _ _ _ h.1
+        · simp only [if_true]; rw [envGet_envSet_other _ _ _ _ h.2]; exact envGet_onTarget_other _ _ _ _ h.1
+      · exact envGet_onTarget_other _ _ _ _ h.1
+    · exact envGet_onTarget_other _ _ _ _ h.1
   | groupBy dest s k =>
     simp [touched] at h; simp only [step]
     split
